@@ -222,7 +222,7 @@ def vmodel_attr(m, cx):
     if m.get("modform") == "suffix":
         for x in m["mods"]:
             name += "_" + x
-    need_array = m.get("argform") in ("str2", "computed2") or m.get("modform") == "array" or m.get("array")
+    need_array = m.get("argform") in ("str2", "computed2") or m.get("modform") in ("array", "array1") or m.get("array")
     if need_array:
         return name + "={" + vmodel_array(m, cx) + "}"
     return name + "={" + target_expr(m["target"], cx) + "}"
